@@ -7,7 +7,8 @@ lookup errors become undefined, StopIteration from a callable becomes undefined,
 probes answer False, conversions fall back to a default); render / generate and their async
 forms catch Exception only to re-raise through handle_exception, which raises the *same*
 exception object with a rewritten traceback; Context.call catches StopIteration only, around
-the call only.  Not decided: state of user objects after a failed render.
+the call only.  Also: get_template_locals fills a dict of its own.  
+Not decided: state of user objects after a failed render.
 """
 
 from __future__ import annotations
